@@ -94,8 +94,8 @@ Lemma step_frame : forall c s t e s', step c s t e = Some s' ->
      ((pre_enq (th s' t) = true /\ ~ In (tk (th s' t)) (used s) /\ used s' = tk (th s' t) :: used s) \/
       (pre_enq (th s' t) = false /\ used s' = used s))) /\
   (pc (th s t) <> Idle ->
-     used s' = used s /\ tk (th s' t) = tk (th s t) /\
-     ((enq s' = enq s /\ (pre_enq (th s' t) = true -> pre_enq (th s t) = true)) \/
+     used s' = used s /\
+     ((enq s' = enq s /\ (pre_enq (th s' t) = true -> pre_enq (th s t) = true /\ tk (th s' t) = tk (th s t))) \/
       (enq s' = enq s ++ [tk (th s t)] /\ pre_enq (th s t) = true /\ pre_enq (th s' t) = false))).
 Proof.
   intros c s t e s' H. tcases H; simpl; unfold upd; rewrite ?Nat.eqb_refl; simpl;
@@ -108,7 +108,144 @@ Proof.
   unfold pre_enq; simpl; rw_facts; simpl;
   repeat match goal with H : fn _ = _ |- _ => rewrite H end; simpl;
   repeat (split; [reflexivity|]);
-  try first [ solve [left; repeat split; auto; try discriminate; try congruence]
+  first [ solve [left; repeat split; auto; try discriminate; try congruence]
         | solve [right; repeat split; auto; try (apply Nat.eqb_neq; assumption)] ].
-  Show.
-Abort.
+Qed.
+
+Lemma Iused_step : forall c s t e s', Ifresh s -> Iused s -> step c s t e = Some s' -> Iused s'.
+Proof.
+  intros c s t e s' IF I H. unfold Iused in *.
+  tcases H; simpl in *; intros y Hy; try (apply in_app_or in Hy; destruct Hy as [Hy|[Hy|[]]]); subst; auto;
+    (eapply proj1, IF; pre_enq_now).
+Qed.
+
+Lemma idle_dec : forall p : pcT, p = Idle \/ p <> Idle.
+Proof. destruct p; (left; reflexivity) || (right; discriminate). Qed.
+
+Ltac fr Hfr u Ne Hp := let Q := fresh "Q" in pose proof (Hfr u Ne (or_intror Hp)) as Q; rewrite Q in *; clear Q.
+
+Lemma Ifresh_step : forall c s t e s', Iused s -> Ifresh s -> step c s t e = Some s' -> Ifresh s'.
+Proof.
+  intros c s t e s' IU I H. apply step_frame in H. destruct H as (Hfr & HI & HN).
+  destruct (idle_dec (pc (th s t))) as [Ei|Ei].
+  - destruct (HI Ei) as (He & [(Hp & Hx & Hu)|(Hp & Hu)]); clear HI HN.
+    + intros u Hpre. rewrite He, Hu. destruct (Nat.eq_dec u t) as [->|Ne].
+      * split; [left; reflexivity|]. split; [intros Hin; apply Hx; apply IU; exact Hin|].
+        intros u0 H0t Hp0. fr Hfr u0 H0t Hp0. intros Eq. apply Hx. rewrite <- Eq.
+        apply (I u0 Hp0).
+      * fr Hfr u Ne Hpre. destruct (I u Hpre) as (A & B & C).
+        split; [right; exact A|]. split; [exact B|].
+        intros u0 H0u Hp0. destruct (Nat.eq_dec u0 t) as [->|Ne0].
+        -- intros Eq. apply Hx. rewrite Eq. exact A.
+        -- fr Hfr u0 Ne0 Hp0. apply C; assumption.
+    + intros u Hpre. rewrite He, Hu. destruct (Nat.eq_dec u t) as [->|Ne]; [congruence|].
+      fr Hfr u Ne Hpre. destruct (I u Hpre) as (A & B & C). split; [exact A|]. split; [exact B|].
+      intros u0 H0u Hp0. destruct (Nat.eq_dec u0 t) as [->|Ne0]; [congruence|].
+      fr Hfr u0 Ne0 Hp0. apply C; assumption.
+  - destruct (HN Ei) as (Hu & [(He & Hp)|(He & Hp & Hp')]); clear HI HN.
+    + intros u Hpre. rewrite He, Hu. destruct (Nat.eq_dec u t) as [->|Ne].
+      * destruct (Hp Hpre) as [Hp1 Htk]. rewrite Htk. destruct (I t Hp1) as (A & B & C). split; [exact A|]. split; [exact B|].
+        intros u0 H0t Hp0. fr Hfr u0 H0t Hp0. apply C; assumption.
+      * fr Hfr u Ne Hpre. destruct (I u Hpre) as (A & B & C). split; [exact A|]. split; [exact B|].
+        intros u0 H0u Hp0. destruct (Nat.eq_dec u0 t) as [->|Ne0].
+        -- destruct (Hp Hp0) as [Hp1 Htk]. rewrite Htk. apply C; auto.
+        -- fr Hfr u0 Ne0 Hp0. apply C; assumption.
+    + intros u Hpre. rewrite He, Hu. destruct (Nat.eq_dec u t) as [->|Ne]; [congruence|].
+      fr Hfr u Ne Hpre. destruct (I u Hpre) as (A & B & C). split; [exact A|].
+      split.
+      * intros Hin. apply in_app_or in Hin. destruct Hin as [Hin|[Hin|[]]]; [exact (B Hin)|].
+        apply (C t (not_eq_sym Ne) Hp). exact Hin.
+      * intros u0 H0u Hp0. destruct (Nat.eq_dec u0 t) as [->|Ne0]; [congruence|].
+        fr Hfr u0 Ne0 Hp0. apply C; assumption.
+Qed.
+
+
+(* effect of one transition on the task lists *)
+Inductive qeff (s s' : st) (t : tid) : Prop :=
+| QSame : queue s' = queue s -> (forall u, held1 s' u = held1 s u) -> done s' = done s -> disc s' = disc s ->
+          enq s' = enq s -> qeff s s' t
+| QEnq : forall x, x = tk (th s t) -> pre_enq (th s t) = true -> queue s' = queue s ++ [x] ->
+          (forall u, held1 s' u = held1 s u) -> done s' = done s -> disc s' = disc s -> enq s' = enq s ++ [x] -> qeff s s' t
+| QDeq : forall x, loop_pc (pc (th s t)) = true -> queue s = x :: queue s' -> held1 s t = [] -> held1 s' t = [x] ->
+          (forall u, u <> t -> held1 s' u = held1 s u) -> done s' = done s -> disc s' = disc s -> enq s' = enq s -> qeff s s' t
+| QDone : forall x, loop_pc (pc (th s t)) = true -> queue s' = queue s -> held1 s t = [x] -> held1 s' t = [] ->
+          (forall u, u <> t -> held1 s' u = held1 s u) -> done s' = done s ++ [x] -> disc s' = disc s -> enq s' = enq s ->
+          qeff s s' t
+| QClear : queue s' = [] -> (forall u, held1 s' u = held1 s u) -> done s' = done s -> disc s' = disc s ++ queue s ->
+          enq s' = enq s -> qeff s s' t.
+
+Ltac held_same :=
+  intros u; unfold held1; simpl; unfold upd;
+  repeat match goal with |- context [u =? ?a] => destruct (Nat.eqb_spec u a); [subst u|] end;
+  simpl; rw_facts; try reflexivity.
+
+Lemma step_qeff : forall c s t e s', step c s t e = Some s' -> qeff s s' t.
+Proof.
+  intros c s t e s' H. tcases H;
+    first [ solve [apply QSame; try reflexivity; held_same]
+          | solve [eapply QEnq; try reflexivity; try pre_enq_now; held_same]
+          | solve [eapply QDeq; try eassumption; try reflexivity; rw_facts; try reflexivity;
+                   unfold held1; simpl; unfold upd; rewrite ?Nat.eqb_refl; simpl; rw_facts; try reflexivity;
+                   intros u Hu; destruct (Nat.eqb_spec u t); [contradiction|reflexivity]]
+          | solve [eapply QDone; try reflexivity; rw_facts; try reflexivity;
+                   unfold held1; simpl; unfold upd; rewrite ?Nat.eqb_refl; simpl; rw_facts; try reflexivity;
+                   intros u Hu; destruct (Nat.eqb_spec u t); [contradiction|reflexivity]]
+          | solve [apply QClear; simpl; rewrite ?app_nil_r; try reflexivity; held_same] ].
+Qed.
+
+Lemma cnt_app : forall x a b, cnt_in x (a ++ b) = cnt_in x a + cnt_in x b.
+Proof. intros. unfold cnt_in. apply count_occ_app. Qed.
+
+Lemma cnt_pos_In : forall x l, In x l <-> cnt_in x l >= 1.
+Proof. intros. unfold cnt_in. rewrite (count_occ_In Nat.eq_dec). lia. Qed.
+
+Lemma flat_map_same : forall (f g : nat -> list task) l, (forall u, In u l -> g u = f u) -> flat_map g l = flat_map f l.
+Proof.
+  intros f g l. induction l as [|a l IH]; intros H; simpl; [reflexivity|].
+  rewrite (H a (or_introl eq_refl)), IH; [reflexivity|]. intros u Hu. apply H. right. exact Hu.
+Qed.
+
+Lemma cnt_flat_map_upd : forall (f g : nat -> list task) t y l, NoDup l -> In t l -> (forall u, u <> t -> g u = f u) ->
+  cnt_in y (flat_map g l) + cnt_in y (f t) = cnt_in y (flat_map f l) + cnt_in y (g t).
+Proof.
+  intros f g t y l. induction l as [|a l IH]; intros ND Hin Hext; [contradiction|].
+  inversion ND as [|? ? Ha ND']; subst. simpl. rewrite !cnt_app. destruct (Nat.eq_dec a t) as [->|Ne].
+  - rewrite (flat_map_same f g l); [lia|]. intros u Hu. apply Hext. intros ->. contradiction.
+  - destruct Hin as [->|Hin]; [congruence|]. rewrite (Hext a Ne). specialize (IH ND' Hin Hext). lia.
+Qed.
+
+Lemma held_upd : forall c s s' t y, t < nthreads c -> (forall u, u <> t -> held1 s' u = held1 s u) ->
+  cnt_in y (held c s') + cnt_in y (held1 s t) = cnt_in y (held c s) + cnt_in y (held1 s' t).
+Proof.
+  intros c s s' t y Ht Hext. unfold held. apply cnt_flat_map_upd; [apply seq_NoDup|apply in_seq; lia|exact Hext].
+Qed.
+
+Lemma held_same_all : forall c s s', (forall u, held1 s' u = held1 s u) -> held c s' = held c s.
+Proof. intros c s s' H. unfold held. apply flat_map_same. intros u _. apply H. Qed.
+
+Lemma cnt_single : forall x y, cnt_in y [x] = if Nat.eq_dec x y then 1 else 0.
+Proof. intros. unfold cnt_in. simpl. destruct (Nat.eq_dec x y); reflexivity. Qed.
+
+Lemma cnt_cons : forall x y l, cnt_in y (x :: l) = (if Nat.eq_dec x y then 1 else 0) + cnt_in y l.
+Proof. intros. unfold cnt_in. simpl. destruct (Nat.eq_dec x y); reflexivity. Qed.
+
+Lemma cnt_nil : forall y, cnt_in y [] = 0.
+Proof. reflexivity. Qed.
+
+Lemma Ipart_step : forall c s t e s', Iwk c s -> Ifresh s -> Ipart c s -> step c s t e = Some s' -> Ipart c s'.
+Proof.
+  intros c s t e s' IW IF I H. apply step_qeff in H. unfold Ipart in *. intros y. destruct (I y) as [P Q].
+  unfold parts in *. rewrite !cnt_app in *.
+  destruct H as [H1 H2 H3 H4 H5 | x Hx Hp H1 H2 H3 H4 H5 | x Hl H1 Ha Hb H2 H3 H4 H5 | x Hl H1 Ha Hb H2 H3 H4 H5
+                | H1 H2 H3 H4 H5].
+  - rewrite H1, (held_same_all c s s' H2), H3, H4, H5. split; assumption.
+  - assert (Z : ~ In x (enq s)) by (subst x; apply IF; assumption).
+    assert (Z0 : cnt_in x (enq s) = 0) by (apply (count_occ_not_In Nat.eq_dec); exact Z).
+    rewrite H1, (held_same_all c s s' H2), H3, H4, H5, !cnt_app, !cnt_single.
+    destruct (Nat.eq_dec x y) as [->|N]; lia.
+  - assert (HU := held_upd c s s' t y (IW t Hl) H2). rewrite Ha, Hb, cnt_single, cnt_nil in HU.
+    rewrite H1, cnt_cons in P. rewrite H3, H4, H5. destruct (Nat.eq_dec x y); lia.
+  - assert (HU := held_upd c s s' t y (IW t Hl) H2). rewrite Ha, Hb, cnt_single, cnt_nil in HU.
+    rewrite H1, H3, H4, H5, cnt_app, cnt_single. destruct (Nat.eq_dec x y); lia.
+  - rewrite H1, (held_same_all c s s' H2), H3, H4, H5, cnt_app, cnt_nil. lia.
+Qed.
